@@ -13,15 +13,17 @@
 // token into a later one is a disagreement; the oracle grant-depends-on-previous-token re-parses every accepted
 // token on a fresh helper after a neutral token and demands the same grants.
 //
-//	> cfg <app> <configured key ids> <protected prefixes> <local 0|1> <insecure 0|1>
-//	> tok <now ms> empty | malformed | t <alg> <kind> <kid> <sigOk key ids> <iss> <user> <exp> <iat> <nbf> <svc> <bits>
+//	> cfg <app> <listed keys, fingerprint:key in configuration order> <entries put into the map directly> <protected prefixes> <local 0|1> <insecure 0|1>
+//	< keys <id:key,… sorted>      the map the REAL vkuth.ParseVkuthKeys built from the listed keys (+ the direct entries)
+//	> tok <now ms> empty | malformed | t <alg> <kind> <kid> <sigValid keys> <iss> <user> <exp> <iat> <nbf> <svc> <bits>
 //	< ok user=.. svc=. admin=. dev=. vd=. ed=. vp=.. ep=.. vm=.. em=..  |  < err <jwt error mask>  |  < panic
 //	> view <name>                                  < view 0|1
 //	> chg <create> <old name> <new name>           < chg 0|1
 //	> edit <create> <old meta> <new meta>          < edit ok|forbidden|weight|presort|presortonly|skips|strategy|shard|raw
 //
 // Strings are "x"+hex, lists comma separated ("-" = empty), header values A (absent) / O (present, not a string) /
-// S<hex>. The signature is NOT decided by the model: `sigOk` is the list of configured key ids under whose key the
+// S<hex>. The signature is NOT decided by the model: `sigValid` is the list of public keys (bytes; the harness's OWN
+// key pairs, configured or not — never the map returned by the code under test) under which the
 // token's signature verifies, computed here with crypto/ed25519 directly, independently of golang-jwt.
 //
 //	-mode=gen   prints lean/SH/Gen/C30.lean (constants as compiled)
@@ -291,8 +293,15 @@ func (s *spec) userOr(d string) *string {
 	return &d
 }
 
-// sigOkFor: configured key ids under whose key the third segment is a valid Ed25519 signature of the first two.
-func sigOkFor(token string, cfgKeys map[string][]byte) []string {
+// fingerprint: the key id vkuth gives a public key (hex of the first 8 bytes of its SHA-256), computed here independently.
+func fingerprint(pub []byte) string {
+	d := sha256.Sum256(pub)
+	return hex.EncodeToString(d[:8])
+}
+
+// sigValidFor: the candidate public keys (the harness's own) under which the third segment is a valid Ed25519
+// signature of the first two.
+func sigValidFor(token string, cands [][]byte) []string {
 	parts := strings.Split(token, ".")
 	if len(parts) != 3 {
 		return nil
@@ -302,13 +311,23 @@ func sigOkFor(token string, cfgKeys map[string][]byte) []string {
 		return nil
 	}
 	var ok []string
-	for id, k := range cfgKeys {
+	for _, k := range cands {
 		if len(k) == ed25519.PublicKeySize && ed25519.Verify(ed25519.PublicKey(k), []byte(parts[0]+"."+parts[1]), sig) {
-			ok = append(ok, id)
+			ok = append(ok, string(k))
 		}
 	}
-	sort.Strings(ok)
 	return ok
+}
+
+func pairs(ids []string, ks [][]byte) string {
+	if len(ids) == 0 {
+		return "-"
+	}
+	o := make([]string, len(ids))
+	for i := range ids {
+		o[i] = xs(ids[i]) + ":" + xs(string(ks[i]))
+	}
+	return strings.Join(o, ",")
 }
 
 // ------------------------------------------------------------------------------------------------ generators
@@ -406,6 +425,22 @@ func p64(v int64) *int64 {
 }
 func pstr(s string) *string { return &s }
 
+// otherKey: index of a key different from `cur`: a configured one if there are two or more, else the unconfigured last one
+func otherKey(r *verifx.Rng, keys []keyPair, cur int) int {
+	nCfg := len(keys) - 1
+	if nCfg < 2 || cur >= nCfg {
+		if cur == nCfg {
+			return 0
+		}
+		return nCfg
+	}
+	o := r.Intn(nCfg - 1)
+	if o >= cur {
+		o++
+	}
+	return o
+}
+
 // one aspect of a valid spec is changed; returns the aspect name
 func tamper(r *verifx.Rng, s *spec, now int64, keys []keyPair, which int) string {
 	w := time.Duration(vkuth.JWTTimeWindow).Milliseconds()
@@ -448,15 +483,20 @@ func tamper(r *verifx.Rng, s *spec, now int64, keys []keyPair, which int) string
 		case 1:
 			s.kid = hv{1, ""}
 		case 2:
-			s.kid = str(keys[1].id) // other configured key, signed by key 0
+			s.kid = str(keys[otherKey(r, keys, s.signer)].id) // another key (configured if there is one), signed by the original one
 		case 3:
-			s.kid = str(keys[2].id) // unconfigured key, properly signed by it
-			s.signer = 2
+			s.kid = str(keys[len(keys)-1].id) // unconfigured key, properly signed by it
+			s.signer = len(keys) - 1
 		case 4:
-			s.kid = str(pick(r, []string{"", "short", "0000000000000000", keys[0].id + "0", strings.ToUpper(keys[0].id), keys[0].id[:15]}))
+			id := keys[s.signer].id
+			s.kid = str(pick(r, []string{"", "short", "0000000000000000", id + "0", strings.ToUpper(id), id[:15]}))
 		case 5:
-			s.kid = str(keys[1].id) // other configured key, properly signed by it: still valid
-			s.signer = 1
+			o := otherKey(r, keys, s.signer)
+			if o == len(keys)-1 {
+				return "none"
+			}
+			s.kid = str(keys[o].id) // other configured key, properly signed by it: still valid (rotation)
+			s.signer = o
 			return "none"
 		case 6:
 			s.kid = str("short")
@@ -464,9 +504,15 @@ func tamper(r *verifx.Rng, s *spec, now int64, keys []keyPair, which int) string
 	case "sig":
 		switch r.Intn(6) {
 		case 0:
-			s.signer = 2 // wrong key, kid names a configured one
+			s.signer = len(keys) - 1 // unconfigured key, kid names a configured one
 		case 1:
-			s.signer = 1
+			s.signer = otherKey(r, keys, s.signer) // another (configured, if any) key, kid unchanged
+		case 2:
+			if s.signer == len(keys)-2 {
+				s.signer = otherKey(r, keys, s.signer)
+			} else {
+				s.signer = len(keys) - 2 // the LAST configured key, kid unchanged
+			}
 		default:
 			s.sigMode = 1 + r.Intn(5)
 		}
@@ -785,34 +831,52 @@ func parse(helper *vkuth.JWTHelper, token string, prot []string, local, insecure
 
 func runCase(i int, r *verifx.Rng) {
 	app := appNames[r.Intn(len(appNames))]
-	keys := make([]keyPair, 3)
-	var enc []string
+	// key rotation: 1-4 configured keys (keys[0..nCfg-1]) and one unconfigured key (the last). The JWTHelper gets the map
+	// the REAL vkuth.ParseVkuthKeys builds from the base64 list, exactly as cmd/statshouse-api does for --vkuth-public-keys.
+	nCfg := 1 + r.Pick(15, 40, 25, 20)
+	keys := make([]keyPair, nCfg+1)
 	for k := range keys {
 		priv := ed25519.NewKeyFromSeed(r.Bytes(ed25519.SeedSize))
 		keys[k] = keyPair{pub: priv.Public().(ed25519.PublicKey), priv: priv}
+		keys[k].id = fingerprint(keys[k].pub)
+	}
+	h.Stat(fmt.Sprintf("keys.configured.%d", nCfg), 1)
+	var enc, listedIDs []string
+	var listedKeys [][]byte
+	list := func(k int) {
 		enc = append(enc, b64.EncodeToString(keys[k].pub))
+		listedIDs = append(listedIDs, keys[k].id)
+		listedKeys = append(listedKeys, keys[k].pub)
 	}
-	for k := range keys { // ids exactly as production derives them (ParseVkuthKeys -> vkuthFingerprint)
-		m, err := vkuth.ParseVkuthKeys(enc[k : k+1])
-		if err != nil || len(m) != 1 {
-			panic(fmt.Sprint("ParseVkuthKeys: ", err))
-		}
-		for id := range m {
-			keys[k].id = id
-		}
+	for k := 0; k < nCfg; k++ {
+		list(k)
 	}
-	cfgKeys, err := vkuth.ParseVkuthKeys(enc[:2])
+	if r.Chance(1, 10) {
+		list(r.Intn(nCfg)) // the same key listed twice
+	}
+	cfgKeys, err := vkuth.ParseVkuthKeys(enc)
 	if err != nil {
 		panic(err)
 	}
+	own := map[string][]byte{} // the harness's own table: id -> key bytes
+	for k := 0; k < nCfg; k++ {
+		own[keys[k].id] = keys[k].pub
+	}
+	var extraIDs []string
+	var extraKeys [][]byte
 	if r.Chance(1, 3) {
-		cfgKeys["short"] = keys[0].pub[:16] // a configured key of the wrong size can verify nothing
+		short := append([]byte(nil), keys[0].pub[:16]...)
+		cfgKeys["short"] = short // a configured key of the wrong size can verify nothing
+		own["short"] = short
+		extraIDs, extraKeys = []string{"short"}, [][]byte{short}
 	}
-	var cfgIDs []string
-	for id := range cfgKeys {
-		cfgIDs = append(cfgIDs, id)
+	cands := [][]byte{}
+	for k := range keys {
+		cands = append(cands, keys[k].pub)
 	}
-	sort.Strings(cfgIDs)
+	if len(extraKeys) > 0 {
+		cands = append(cands, extraKeys[0])
+	}
 	var prot []string
 	for n := r.Pick(3, 4, 2, 1); n > 0; n-- {
 		prot = append(prot, pick(r, protPool))
@@ -828,7 +892,28 @@ func runCase(i int, r *verifx.Rng) {
 	}
 	helper := vkuth.NewJWTHelper(cfgKeys, app)
 	helper.SetNow(func() time.Time { return time.Unix(now/1000, (now%1000)*1_000_000) })
-	h.Op("cfg %s %s %s %d %d", xs(app), xl(cfgIDs), xl(prot), b2i(local), b2i(insecure))
+	h.Op("cfg %s %s %s %s %d %d", xs(app), pairs(listedIDs, listedKeys), pairs(extraIDs, extraKeys), xl(prot), b2i(local), b2i(insecure))
+	{
+		var dump []string
+		for id, k := range cfgKeys {
+			dump = append(dump, xs(id)+":"+xs(string(k)))
+		}
+		sort.Strings(dump)
+		h.Obs("keys %s", verifx.List(dump))
+		// direct oracle: every configured key id maps to the bytes of the key it is the fingerprint of, and nothing else is configured
+		for id, k := range own {
+			if got, ok := cfgKeys[id]; !ok {
+				h.Viol("keytable-missing-key", "ParseVkuthKeys lost key id %s", id)
+			} else if string(got) != string(k) {
+				h.Viol("keytable-wrong-key", "key id %s maps to key %x, not to its own key %x (configured: %d keys)", id, got, k, nCfg)
+			}
+		}
+		for id := range cfgKeys {
+			if _, ok := own[id]; !ok {
+				h.Viol("keytable-extra-key", "ParseVkuthKeys configured an id %s that is no listed key's fingerprint", id)
+			}
+		}
+	}
 
 	// A neutral token: valid, explicit empty bit array, its own user. Parsed (unobserved) at the start of every case so
 	// that whatever process-wide state token parsing may keep is the same whether or not earlier cases ran (-only replays),
@@ -854,8 +939,9 @@ func runCase(i int, r *verifx.Rng) {
 		last := j == nTok-1
 		prev := prevBits
 		func() {
-			// a valid token …
-			s := &spec{alg: str(jwt.SigningMethodEdDSA.Alg()), kind: str(vkuth.KindHeaderTokenValue), kid: str(keys[0].id), otherLit: pick(r, []string{"7", "true", "null", `["EdDSA"]`, `{"a":1}`}),
+			// a valid token, signed by one of the configured keys (rotation) and naming it …
+			cur := r.Intn(nCfg)
+			s := &spec{alg: str(jwt.SigningMethodEdDSA.Alg()), kind: str(vkuth.KindHeaderTokenValue), kid: str(keys[cur].id), signer: cur, otherLit: pick(r, []string{"7", "true", "null", `["EdDSA"]`, `{"a":1}`}),
 				iss: pstr(vkuth.TokenIssuer), user: pstr(pick(r, []string{"u@corp", "alice", "x", "svc-1", "имя"})),
 				exp: p64(now + int64(1+r.Intn(7200))*1000), iat: p64(now - int64(r.Intn(600))*1000), service: r.Chance(1, 6)}
 			if r.Chance(1, 3) {
@@ -930,7 +1016,7 @@ func runCase(i int, r *verifx.Rng) {
 				token = ""
 				s.aspects = append(s.aspects, "empty")
 			}
-			sigOk := sigOkFor(token, cfgKeys)
+			sigValid := sigValidFor(token, cands)
 			if s.malformed == 0 && !empty {
 				prevBits = s.bits
 			}
@@ -955,7 +1041,7 @@ func runCase(i int, r *verifx.Rng) {
 				if s.user != nil {
 					user = *s.user
 				}
-				h.Op("tok %d t %s %s %s %s %s %s %s %s %s %d %s", now, s.alg.tok(), s.kind.tok(), s.kid.tok(), xl(sigOk), xs(iss), xs(user),
+				h.Op("tok %d t %s %s %s %s %s %s %s %s %s %d %s", now, s.alg.tok(), s.kind.tok(), s.kid.tok(), xl(sigValid), xs(iss), xs(user),
 					optMs(s.exp), optMs(s.iat), optMs(s.nbf), b2i(s.service), xl(s.bits))
 			}
 			o := parse(helper, token, prot, local, insecure)
@@ -977,6 +1063,21 @@ func runCase(i int, r *verifx.Rng) {
 			}
 			if len(s.aspects) == 1 {
 				oneAspect = true
+			}
+			if s.malformed == 0 && !empty {
+				switch {
+				case s.kid.k == 2 && s.kid.s == keys[s.signer].id && s.signer < nCfg:
+					h.Stat(fmt.Sprintf("key.named-and-signed.cfg%d.%s", nCfg, map[bool]string{true: "last", false: "notlast"}[s.signer == nCfg-1]), 1)
+				case s.kid.k == 2 && own[s.kid.s] != nil && s.signer < nCfg:
+					h.Stat("key.names-one-configured-signed-by-another", 1)
+				case s.kid.k == 2 && own[s.kid.s] != nil:
+					h.Stat("key.names-configured-signed-by-unconfigured", 1)
+				}
+			}
+			// a token generated valid in every aspect (comfortably inside its window, named key = signing key = a configured
+			// key) must be accepted: "grants exactly the permissions carried by a valid token"
+			if o.ai == nil && len(s.aspects) == 0 && s.dataShape == 0 && !local && !insecure {
+				h.Viol("rejected-valid-token", "a valid token signed by configured key %d of %d (kid %s) is rejected: panic=%v err=%v; token=%s now=%d", s.signer, nCfg, s.kid.s, o.panicked, o.err, token, now)
 			}
 			if o.ai == nil {
 				return
@@ -1010,7 +1111,8 @@ func runCase(i int, r *verifx.Rng) {
 				bad := func(sig, what string) {
 					h.Viol("accept-"+sig, "token accepted although %s; token=%s now=%d", what, token, now)
 				}
-				kidCfg := s.kid.k == 2 && cfgKeys[s.kid.s] != nil
+				named, kidCfg := own[s.kid.s] // the key the kid names, by the harness's own table (not the map under test)
+				kidCfg = kidCfg && s.kid.k == 2
 				switch {
 				case empty || s.malformed != 0:
 					bad("malformed", "it is empty or malformed")
@@ -1020,7 +1122,9 @@ func runCase(i int, r *verifx.Rng) {
 					bad("kind", "its kind header is not \"token\"")
 				case !kidCfg:
 					bad("kid", "its kid names no configured key")
-				case !contains(sigOk, s.kid.s):
+				case !contains(sigValid, string(named)) && len(sigValid) > 0:
+					h.Viol("accepted-under-wrong-key", "token accepted although its signature verifies under key(s) %x but not under the key %x its kid %q names (%d keys configured); token=%s", sigValid, named, s.kid.s, nCfg, token)
+				case !contains(sigValid, string(named)):
 					bad("sig", "its signature does not verify under the key its kid names")
 				case s.iss == nil || *s.iss != "vkuth":
 					bad("iss", "its issuer is not vkuth")
